@@ -705,6 +705,11 @@ def rule_phase_wiring(ctx):
     ctx.check(any(callee_name(c) == "handle_done_tasks" for c in calls_in(jl.node)), jl.fq, "the loop processes finished tasks", "done tasks are never handled (their exceptions and wake-ups are lost)", "handle_done_tasks()")
 
 
+def rule_claims_follow_declaration(ctx):
+    """R-C10-12: the resource claims that the dispatch predicate reads are the declared ones (a stale claim keeps an eligible step pending)."""
+    shared.check_claims_replaced(ctx)
+
+
 def rule_defer_cap(ctx):
     """R-C10-7: every accepted defer passed the counter and the cap."""
     fi = ctx.prog.func("step.Step.mark_completed")
@@ -749,6 +754,7 @@ RULES = [
     Rule("R-C10-9", "job handlers leave the transient states on every exit", rule_transient_state_resolved, min_instances=10),
     Rule("R-C10-10", "recomputation pipelines run all stages and clear the flag last", rule_recompute_pipelines, min_instances=6),
     Rule("R-C10-11", "phase wiring: loop, finalisation, finished tasks", rule_phase_wiring, min_instances=5),
+    Rule("R-C10-12", "resource claims follow the declaration", rule_claims_follow_declaration, min_instances=7),
     Rule("R-C10-8", "'needed' is computed from attached consumers, targets and declared need", C11.rule_read_set, min_instances=10),
 ]
 
